@@ -173,10 +173,8 @@ Theorem C01_color3uint8_unknown_property_refuted :
 Proof. exact color3uint8_unknown_property_refuted. Qed.
 
 Theorem C01_content_object_order_refuted :
-  let ec := mkEC (fun r => Some (Z.of_N r)) (fun _ => None) (fun _ => 0) in
-  let dc := mkDC (fun z => Z.to_N z) [] None in
-  exists b, enc_col WContent ec [VContent (CObject 7); VContent (CObject 9)] = Ok b /\
-            dec_col WContent VT_Content dc 2 b = Ok ([VContent (CObject 9); VContent (CObject 7)], []).
+  exists b, enc_col WContent ectx_id [VContent (CObject 7); VContent (CObject 9)] = Ok b /\
+            dec_col WContent VT_Content dctx_id 2 b = Ok ([VContent (CObject 9); VContent (CObject 7)], []).
 Proof. exact content_object_order_refuted. Qed.
 
 Theorem C01_font_cached_empty_refuted :
